@@ -1,4 +1,5 @@
 """C02 any mismatch or in-flight tampering prevents agreement."""
+import base64, binascii
 from framework import *
 from drivers import *
 import pure
@@ -77,6 +78,12 @@ TAMPERS = [
     ("side byte 00", lambda m, own: b"\x00" + m[1:]),
     ("side byte ff", lambda m, own: b"\xff" + m[1:]),
     ("side byte of the other flavour", lambda m, own: (b"S" if m[:1] in (b"A", b"B") else b"A") + m[1:]),
+    # re-encodings a transport layer might apply ("re-encoded" in the property): all are different byte strings
+    ("hex of the whole message", lambda m, own: binascii.hexlify(m)),
+    ("side byte + upper-case hex of the element", lambda m, own: m[:1] + binascii.hexlify(m[1:]).upper()),
+    ("base64", lambda m, own: base64.b64encode(m)),
+    ("latin-1 text re-encoded as utf-8", lambda m, own: m.decode("latin-1").encode("utf-8") if max(m) > 127 else m + b"\xc2\x80"),
+    ("element bytes reversed", lambda m, own: m[:1] + (m[1:][::-1] if m[1:][::-1] != m[1:] else m[1:] + b"\x00")),
 ]
 
 
